@@ -137,7 +137,7 @@ def run(ctx):
     for s in range(0, len(rows), step):
         R = rows[s:s + step]
         body = ';\n'.join('(%s, %s, %s)' % (g_str(t), ringcorr.graph_lit(g), ringcorr.matches_lit(ms)) for t, _, g, ms in R)
-        shards.append(ringcorr.header([t for t, _, _, _ in R]) + 'Definition cases := [\n%s\n].\n'
+        shards.append(ringcorr.header([t for t, _, _, _ in R]) + 'Definition cases : list (str * mol * list (list nat)) := [\n%s\n].\n'
                       'Fixpoint mm (i : nat) (l : list (str * mol * list (list nat))) : list nat :=\n'
                       '  match l with [] => [] | (t, g, ms) :: r =>\n'
                       '    if match R t with OFrag f => same_matches (matches f g) ms | _ => false end then mm (S i) r else i :: mm (S i) r end.\n'
